@@ -61,6 +61,12 @@ theorem skel_Registry :
     Skel.Registry_IsBaseDomainAllowed = ["mu.RLock", "defer mu.RUnlock", "@r.baseDomains", "@r.baseDomains"] ∧
     Skel.Registry_LookupByHost = ["Lookup"] := by decide
 
+/-- `UnregisterByMappingID` finds the entry of the mapping ID and deletes it inside ONE write-locked section (no
+read-locked scan followed by a delete by name); `Rebuild` replaces the map inside one write-locked section. -/
+theorem skel_Registry_removals :
+    Skel.Registry_UnregisterByMappingID = ["mu.Lock", "defer mu.Unlock", "@r.mappings", "@r.mappings"] ∧
+    Skel.Registry_Rebuild = ["mu.Lock", "defer mu.Unlock", "@r.mappings", "@r.mappings", "@r.mappings"] := by decide
+
 /-- Entry points around the repository: the create handler takes the identity from the connection (`ctx.ClientID`),
 asks the checker, then the creator (defaults 80 / 443 / 7·24·3600 s); the delete handler passes `ctx.ClientID` and the
 requested id; the adapter creates then updates (expiry), deletes with the given client; cleanup lists, tests `IsExpired`
@@ -384,6 +390,26 @@ theorem C19_registry_split_witness : holdsReg (modelReg (regWitness true)) = fal
 theorem C19_registry_atomic_witness :
     (modelReg (regWitness false)).filterMap (fun s => s.ret.map (·.2)) =
       [.ok, .err Gen.coreerrors.CodeAlreadyExists, .found "m1" 1] := by decide +kernel
+
+/-- The late / duplicate unregister scenario: mapping `m_old` owns `shared.t.net`; two `UnregisterByMappingID m_old`
+(a retried delete) overlap a `Register` of `m_new` by another client; afterwards a lookup, a third claimant, a lookup. -/
+def lateUnreg (sched : List Nat) : RInput :=
+  { cf := ⟨false, ["t.net"]⟩
+    threads := [[.register (pmOf "m_old" 1), .unregId "m_old"], [.unregId "m_old"], [.register (pmOf "m_new" 2)],
+                [.lookup "shared.t.net:443", .register (pmOf "m_third" 3), .lookup "shared.t.net"]]
+    sched := sched }
+
+/-- **A late or repeated unregister of the old mapping never removes the new owner** — every schedule of the scenario
+(instance of `C19_registry_single_owner`, which holds for all histories): once `m_new` is told "registered" it stays
+the answer of `LookupByHost` and the name is not granted a third time. -/
+theorem C19_registry_late_unregister (sched : List Nat) : holdsReg (modelReg (lateUnreg sched)) = true :=
+  C19_registry_single_owner (lateUnreg sched) rfl
+
+/-- Non-vacuity, the seed's interleaving: both unregisters start, the first deletes, `m_new` registers, the second
+unregister finds nothing of `m_old`; the lookups answer `m_new`, the third claimant is refused. -/
+theorem C19_registry_late_unregister_witness :
+    (modelReg (lateUnreg [0, 0, 0, 0, 1, 0, 2, 2, 2, 1])).filterMap (fun s => s.ret.map (·.2)) =
+      [.ok, .ok, .ok, .ok, .found "m_new" 2, .err Gen.coreerrors.CodeAlreadyExists, .found "m_new" 2] := by decide +kernel
 
 /-! ### the tree as found: the witness -/
 
